@@ -24,3 +24,10 @@ for c, r, m in zip(cases, res, models):
             print("MODE", c["mode"], "seed", c["seed"], "fault", r["obs"]["fault"]); 
             for x in d[:4]: print("  ", x[:1500])
 print(f"{len(cases)} traces, {nev} events, {bad} disagree")
+if os.environ.get("DUMP"):
+    k = int(os.environ["DUMP"])
+    bads = [(c, r, m) for c, r, m in zip(cases, res, models) if S.diff(m, r)]
+    if bads:
+        c, r, m = bads[min(k, len(bads) - 1)]
+        for i, (ev, o) in enumerate(zip(r["hist"]["events"], m["outs"] + ["-"] * 1000)):
+            print(i, ev, "=>", o)
